@@ -15,9 +15,10 @@ store classes over a tracing connection and returns everything a `prog` of coq/C
       A  nothing stored            P  a row under the addressed key in every table (all columns =
       C  same key, other columns different (UNIQUE conflict for INSERT paths that first DELETE with
          a filter)                     what the sentinels are bound as)
-      R  the same call made once before on the SAME object (state kept outside the database, e.g. a
-         cache of what was written, shows as a different trace; the attributes the first call changed
-         are reported)
+      R  the same call made n times before on the SAME object, n in {1, 2} and {k-1, k} for every
+         integer constant k the store modules define or compare against (state kept outside the
+         database -- a cache of what was written, a counter that triggers periodic maintenance --
+         shows as a different trace; the attributes those calls changed are reported)
   and, for a list parameter (found by probing: the call fails with TypeError on a scalar
   sentinel), with 0, 1 and 3 elements in variants A and P;
 * every constructor: on a fresh database, again on the same connection, again after all rows were
@@ -50,12 +51,12 @@ class MeasureError(Exception):
     pass
 
 
-def measure(repo, scratch, python=sys.executable, timeout=180):
+def measure(repo, scratch, python=sys.executable, timeout=300, repeat=(1,)):
     """-> observation dict (see module docstring); MeasureError if the tracer could not run"""
     here = os.path.dirname(os.path.dirname(os.path.abspath(__file__)))
     job = os.path.join(scratch, "c13-measure-job.json")
     with open(job, "w") as f:
-        json.dump({"scratch": scratch}, f)
+        json.dump({"scratch": scratch, "repeat": sorted(set(int(n) for n in repeat if n >= 1)) or [1]}, f)
     env = dict(os.environ)
     env["YV_REPO"] = repo
     env["PYTHONPATH"] = repo + os.pathsep + here
@@ -424,7 +425,7 @@ def _child(jobfile):
                 if not d["public"] or d["special"] or d["error"]:
                     continue
 
-                def one(variant, loopp, k):
+                def one(variant, loopp, k, n=1):
                     c = store_conn()
                     try:
                         o = cls(c)
@@ -435,13 +436,14 @@ def _child(jobfile):
                             # the same call made before on the SAME object: whatever the object remembers
                             # outside the database shows as a difference to the other variants
                             before = snap(o)
-                            call(getattr(o, mname), args)
+                            for _ in range(n):
+                                call(getattr(o, mname), args)
                             after = snap(o)
                             changed = sorted(a for a in set(before) | set(after) if before.get(a) != after.get(a))
                         del c._log[:]
                         exc = call(getattr(o, mname), args)
                         return {"variant": variant, "k": k if loopp else None, "events": list(c._log), "exc": exc,
-                                "state_changed": changed}
+                                "state_changed": changed, "n": n if variant == "R" else None}
                     finally:
                         c.close()
                 first = one("A", None, 0)
@@ -458,9 +460,10 @@ def _child(jobfile):
                         continue
                 m["loop"] = loopp
                 if loopp is None:
-                    m["runs"] = [first, one("P", None, 0), one("C", None, 0), one("R", None, 0)]
+                    m["runs"] = [first, one("P", None, 0), one("C", None, 0)] + [one("R", None, 0, n) for n in job["repeat"]]
                 else:
-                    m["runs"] = [one(v, loopp, k) for k in (0, 1, 3) for v in ("A", "P")] + [one("R", loopp, 1)]
+                    m["runs"] = [one(v, loopp, k) for k in (0, 1, 3) for v in ("A", "P")] + \
+                        [one("R", loopp, 1, n) for n in job["repeat"]]
 
     def readback(obj):
         """generated values of the initialising store, as the public API reports them"""
